@@ -21,10 +21,11 @@ import sys
 import time
 from concurrent.futures import ThreadPoolExecutor
 
-from .common import ints
+from .common import fhex, ints
 
 PROP_FILE = "Properties/C05.v"
-RUN_FILES = ["Model/C05_run.v"]
+GEN = ["GenC05"]
+RUN_FILES = ["Model/C05_run.v", "Model/C05_run_gen.v"]
 
 R_EARTH = 6370997.0
 NAN, INF = float("nan"), float("inf")
@@ -151,6 +152,14 @@ def swath_spec(r, centre, half_m, shape, dims, polar):
                 else:
                     lats[k] = r.choice(BAD_LAT)
         tags.append("invalid")
+    if r.random() < 0.3:      # coordinates exactly on the validity bounds (still valid)
+        for _ in range(r.randint(1, 3)):
+            k = r.randrange(n)
+            if r.random() < 0.5:
+                lons[k] = r.choice([180.0, -180.0])
+            else:
+                lats[k] = r.choice([90.0, -90.0])
+        tags.append("edge")
     if r.random() < 0.15 and n > 1:
         for k in range(n):
             if r.random() < 0.3:
@@ -546,6 +555,8 @@ def gen_history(r, hid):
             vals = [NAN if m else v for v, m in zip(vals, mask)]
         steps.append({"src": 0 if kind == "masks" else k, "values": vals, "mask": mask, "mode": mode, "name": name,
                       "chunks": chunk_tuple(r, [sh, sw], 12)})
+    if kind == "masks" and r.random() < 0.5:
+        steps.append(dict(steps[r.randrange(len(steps))]))      # an identical call again: served from the cache
     return {"id": hid, "kind": kind, "region": region, "sources": sources, "tgt": tgt, "radius": radius, "fill": "nan",
             "dims": ["y", "x"], "steps": steps, "t_shape": [th, tw], "s_shape": [sh, sw], "named": name is not None}
 
@@ -606,7 +617,7 @@ def judge_history(ctx, h, per_cs, coq):
                     fails.append(("C05.%s.joint_compute" % which, tmp[0][1]))
                 nval = sum(1 for v, f in zip(alone["values"], [truth.must_fill[t] for t in range(th * tw)]) if not f)
                 ctx.case(("hist", h["id"], cs, which, k), nontrivial=nval > 0 and (st["mask"] is not None or h["kind"] == "sources"),
-                         sample={"history": h["id"], "kind": h["kind"], "resampler": which, "call": k + 1, "calls": len(h["steps"]),
+                         sample={"history/%s %s" % (h["kind"], which): "history %d" % h["id"], "kind": h["kind"], "resampler": which, "call": k + 1, "calls": len(h["steps"]),
                                  "name": st["name"], "mask_mode": st["mode"], "masked": sum(st["mask"] or []), "targets_with_value": nval})
                 ctx.count("history_%s_%s" % (h["kind"], which))
                 if which == "legacy" and "oracle_q" in w:
@@ -614,6 +625,16 @@ def judge_history(ctx, h, per_cs, coq):
                     coq.asm.append(("(%d, %s, %s, %s, %s, %s)" % (w["n"], zl(w["ia_chunks"][0]), zl(w["ia_chunks"][1]), bl(w["voi"]),
                                                                  zl(w["oracle_q"]), zl(w["ia_joint"])),
                                     "history %d cs %d call %d joint index array" % (h["id"], cs, k + 1)))
+        if h["kind"] == "masks" and all("cache_size" in so["future"] for so in o["steps"]):
+            # identity of each call's cache key: (mask.data.name, 1, radius, epsilon); dask names are tokens of content + chunks
+            ids, seen_keys = [], {}
+            for st in h["steps"]:
+                ident = ("none",) if st["mode"] == "off" or st["mask"] is None else \
+                    (("e", repr(st["mask"])) if st["mode"] == "explicit" else ("d", repr(st["values"]))) + (repr(st["chunks"]),)
+                ids.append(seen_keys.setdefault(ident, len(seen_keys)))
+            coq.cache.append(("(%s, %s)" % (zl(ids), zl([so["future"]["cache_size"] for so in o["steps"]])),
+                              "history %d cs %d cache sizes" % (h["id"], cs)))
+            ctx.count("history_cache_hit" if len(set(ids)) < len(ids) else "history_cache_all_miss")
     seen = set()
     for key, what in fails:
         if key in seen:
@@ -638,6 +659,8 @@ def bl(l):
 
 HDR = ("From Coq Require Import ZArith List Bool.\nFrom PR Require Import Base.ListX Model.Blockwise Model.C05_run.\n"
        "Import ListNotations.\nOpen Scope Z_scope.\n")
+HDR_GEN = ("From Coq Require Import ZArith List Bool Floats.\nFrom PR Require Import Base.ListX Model.C05_run_gen.\n"
+           "Import ListNotations.\n")
 
 
 def run(ctx):
@@ -649,7 +672,9 @@ def run(ctx):
                 "sizes); non-trivial = at least one target pixel receives a source value AND more than one block is assembled or "
                 "a mask / extra dim / invalid pixel is present; distinct = distinct (case, chunk size, resampler, chunking); plus "
                 "resampler-reuse histories (one instance, 2-4 calls, differing masks / NaN patterns, same DataArray name) and joint "
-                "dask.compute of lazy results sharing target and radius but differing in mask or source")
+                "dask.compute of lazy results sharing target and radius but differing in mask or source (non-trivial = some target gets a value "
+                "and a mask or a second source is involved); the regenerated validity expressions are run on the actual binary64 lon/lat; "
+                "nothing is enumerated exhaustively (exhaustive=false)")
     ncase = ctx.n(32, 300)
     sizes = [(30, 24), (60, 40), (120, 80), (400, 300)]
     cases, metas = [], {}
@@ -759,7 +784,7 @@ def judge_case(ctx, case, meta, per_cs, coq):
     truth_plain = Truth(base, None, radius, single)
     truth_mask = Truth(base, mask, radius, single) if mask is not None else truth_plain
     n_valid = sum(truth_plain.valid_in)
-    for lbl in ("region", "pair", "radius", "dtype", "layout", "mask"):
+    for lbl in ("region", "pair", "radius", "dtype", "layout", "mask", "future_mask"):
         ctx.count("%s=%s" % (lbl, meta[lbl]))
     ref = base["ref"]
     ref_m = base.get("ref_explicit", ref) if mask is not None else ref
@@ -810,7 +835,7 @@ def judge_case(ctx, case, meta, per_cs, coq):
                 has_val = any(i != -1 for i in ia)
                 got_value = got_value or has_val
                 ctx.case((cid, cs, which, repr(chunks)), nontrivial=has_val and (nblk > 1 or mask is not None or meta["layout"] != "geo" or n_valid < meta["S"]),
-                         sample={"case": cid, "pair": meta["pair"], "chunk_size": cs, "resampler": which, "index_chunks": chunks[:2],
+                         sample={"%s %s cs=%d" % (meta["pair"], which, cs): "case %d" % cid, "pair": meta["pair"], "chunk_size": cs, "resampler": which, "index_chunks": chunks[:2],
                                  "data_dims": d["dims"], "data_shape": d["shape"], "mask": meta["mask"], "valid_sources": n_valid,
                                  "targets_with_value": sum(1 for i in ia if i != -1), "targets": th * tw})
                 ctx.count("blocks=%s" % ("1" if nblk == 1 else "2-9" if nblk < 10 else "10+"))
@@ -849,6 +874,7 @@ def judge_case(ctx, case, meta, per_cs, coq):
             coq.add(ctx, case, meta, cs, which, w, o, msk)
     if ref and "values" in ref:
         coq.add_numpy(ctx, case, meta, ref)
+        coq.add_numpy_valid(case, base)
     ctx.count("any_value" if got_value else "all_fill")
     seen = set()
     for key, what in fails:
@@ -871,7 +897,8 @@ def implied_mask(case, meta):
 # ------------------------------------------------------------------------------------------ correspondence
 class CoqCases:
     def __init__(self):
-        self.qnd, self.asm, self.gat, self.npy, self.dims = [], [], [], [], []
+        self.qnd, self.asm, self.gat, self.npy, self.dims, self.cache = [], [], [], [], [], []
+        self.valid = {"chk_vin_legacy": [], "chk_vout_legacy": [], "chk_vin_future": [], "chk_vin_numpy": [], "chk_vout_numpy": []}
 
     def add(self, ctx, case, meta, cs, which, w, o, msk):
         th, tw = meta["t_shape"]
@@ -903,12 +930,29 @@ class CoqCases:
                     L, meta["S"], Tr, zl(chunks[0]), zl(chunks[1]), bl(w["vii"]), zl(ia), fill, zl(data), zl([enc(dt, v) for v in res["values"]]),
                     "true"), tag + " gather chunks %s" % (chunks[:2],)))
         if cs == 4096:
+            # the regenerated validity expressions on the actual binary64 lon/lat against the implementation's masks
+            src_pts = mark("[" + ";".join("(%s, %s)" % (fhex(a), fhex(b)) for a, b in zip(o["slon"], o["slat"])) + "]")
+            tgt_pts = mark("[" + ";".join("(%s, %s)" % (fhex(a), fhex(b)) for a, b in zip(o["tlon"], o["tlat"])) + "]")
+            if which == "legacy":
+                self.valid["chk_vin_legacy"].append(("(%s, %s)" % (src_pts, bl(w["vii"])), tag + " valid_input_index"))
+                self.valid["chk_vout_legacy"].append(("(%s, %s)" % (tgt_pts, bl(w["voi"])), tag + " valid_output_index"))
+            else:
+                self.valid["chk_vin_future"].append(("(%s, %s)" % (src_pts, bl(w["vii"])), tag + " valid_input_index"))
             geo = meta["s_dims"]
             names = sorted(set(d["dims"]) | {"y", "x"})
             code = {nm: i for i, nm in enumerate(names)}
             self.dims.append(("(%s, %s, %s, %s, %s)" % (zl([code[x] for x in d["dims"]]), zl(d["shape"]), zl([code[x] for x in geo]),
                                                        "(%d, %d, %d, %d)" % (code["y"], code["x"], th, tw),
                                                        "(%s, %s)" % (zl([code[x] for x in w["result"]["dims"]]), zl(w["result"]["shape"]))), tag + " dims"))
+
+    def add_numpy_valid(self, case, o):
+        ref = o["ref"]
+        if "vii" not in ref or case["src"].get("dtype") == "float32" or case["tgt"].get("dtype") == "float32":
+            return      # numpy compares float32 target coordinates when the source is float32: not the binary64 reading
+        src_pts = mark("[" + ";".join("(%s, %s)" % (fhex(a), fhex(b)) for a, b in zip(o["slon"], o["slat"])) + "]")
+        tgt_pts = mark("[" + ";".join("(%s, %s)" % (fhex(a), fhex(b)) for a, b in zip(o["tlon"], o["tlat"])) + "]")
+        self.valid["chk_vin_numpy"].append(("(%s, %s)" % (src_pts, bl(ref["vii"])), "case %d numpy valid_input_index" % case["id"]))
+        self.valid["chk_vout_numpy"].append(("(%s, %s)" % (tgt_pts, bl(ref["voi"])), "case %d numpy valid_output_index" % case["id"]))
 
     def add_numpy(self, ctx, case, meta, ref):
         if ref.get("is_masked"):
@@ -929,7 +973,9 @@ class CoqCases:
     def evaluate(self, ctx):
         groups = [("qnd", "chk_qnd", self.qnd, "query_no_distance"), ("asm", "chk_assemble", self.asm, "blockwise_assembly"),
                   ("gat", "chk_gather", self.gat, "my_index_gather"), ("npy", "chk_numpy", self.npy, "numpy_pipeline"),
-                  ("dims", "chk_dims", self.dims, "dims_bookkeeping")]
+                  ("dims", "chk_dims", self.dims, "dims_bookkeeping"), ("cache", "chk_cache", self.cache, "cache_history")]
+        for k, (chk, items) in enumerate(sorted(self.valid.items())):
+            groups.append(("val%d" % k, chk, items, "generated_validity_test"))
         texts = []
         for short, chk, items, what in groups:
             per = 30 if short in ("gat", "npy") else 100
@@ -945,7 +991,7 @@ class CoqCases:
                         defs.append("Definition %s := %s." % (names[t], t))
                     return names[t]
                 body = ";\n".join(re.sub("\u00ab([^\u00bb]*)\u00bb", intern, x) for x, _ in part)
-                texts.append((name, HDR + "\n".join(defs) + "\nDefinition cases := [\n%s].\nEval vm_compute in (bad %s cases).\n" % (body, chk), part, what))
+                texts.append((name, (HDR_GEN if short.startswith("val") else HDR) + "\n".join(defs) + "\nDefinition cases := [\n%s].\nEval vm_compute in (bad %s cases).\n" % (body, chk), part, what))
         res = ctx.coq_eval_many([(n, t) for n, t, _, _ in texts])
         for name, _, part, what in texts:
             out, ok = res[name]
